@@ -81,6 +81,9 @@ def work(tier, seed):
         for i in range(n):
             items.append({"kind": "single", "scale": sc, "mats": mats[i::n]})
         items.append({"kind": "stacked", "scale": sc})
+    # long histories of distinct alphas (bounded caches / lookup tables keyed on alpha), re-querying the early ones
+    for part in range(4):
+        items.append({"kind": "alpha_sweep", "part": part, "n": 300 if tier == "quick" else 1500})
     return items
 
 
@@ -117,9 +120,66 @@ def _check_rate(ctx, case, name, got, want, tol):
         ctx.fail("rate-in-unit-interval", dict(case, metric=name), observed=got, expected="[0,1]")
 
 
+CUSTOMARY = [0.001, 0.005, 0.01, 0.02, 0.025, 0.05, 0.1, 0.2, 0.25, 0.32, 0.5]
+
+
+def _run_alpha_sweep(item, ctx, seed):
+    """
+    One process, one long history of interval calls with pairwise distinct alphas: the customary levels, values
+    that round to them (1e-4 .. 1e-2 relative away, and 1 - coverage), a dense ladder, then the first alphas
+    again. Every answer is compared with the reference, so a lookup keyed on a rounded alpha or a bounded cache
+    that serves a stale entry after eviction shows as a wrong half-width.
+    """
+    from score_analysis import ConfusionMatrix, metrics
+
+    part, n = item["part"], item["n"]
+    mats = [np.array([[30, 10], [5, 55]]), np.array([[3.5, 0.5], [0.0, 2.0]]), np.array([[1, 0], [0, 0]]),
+            np.array([[[7, 3], [2, 8]], [[0, 0], [4, 1]]])]
+    arr = mats[part]
+    near = []
+    for c in CUSTOMARY:
+        near += [c, 1 - (1 - c), c * (1 + 6e-3), c * (1 - 4e-3), c + 3e-4, c - 4e-4, c * (1 + 1e-4), float(np.nextafter(c, 1)), float(np.nextafter(c, 0))]
+    ladder = [(j + 0.37 + 0.01 * part) / (n + 1) for j in range(n)]
+    first = near[: 12] + ladder[: 8]
+    hist = list(dict.fromkeys(near + ladder)) + first  # early alphas come back at the end
+    cm = ConfusionMatrix(matrix=arr, binary=True)
+    flat = arr.reshape(-1, 2, 2)
+    ctx.state()
+    for step, alpha in enumerate(hist):
+        if not 0 < alpha < 1:
+            continue
+        for nm, (cn, nn) in CIS.items():
+            api = "cm" if step % 2 else "metrics"
+            case = {"kind": "alpha_sweep", "matrix": arr.tolist(), "step": step, "alpha": alpha, "metric": nm, "api": api,
+                    "distinct_alphas_before": min(step, len(hist) - len(first))}
+            f = (lambda: getattr(cm, nm)(alpha=alpha)) if api == "cm" else (lambda: getattr(metrics, nm)(arr, alpha=alpha))
+            ok, ci = guarded(ctx, "ci-" + nm, case, f)
+            ctx.tick()
+            if not ok:
+                continue
+            ci = np.asarray(ci, dtype=float).reshape(-1, 2)
+            for k in range(flat.shape[0]):
+                d = definitions([[F(float(v)) for v in r] for r in flat[k].tolist()])
+                if d[nn] == 0:
+                    if not np.all(np.isnan(ci[k])):
+                        ctx.fail("ci-nan-iff-rate-nan", case, observed=ci[k], expected="nan")
+                    continue
+                ctx.nontrivial()
+                want = refs.ref_binomial_ci(float(d[cn]), float(d[nn]), alpha)
+                mag = max(1.0, abs(want[0]), abs(want[1]))
+                if not (abs(ci[k][0] - want[0]) <= 1e-9 * mag and abs(ci[k][1] - want[1]) <= 1e-9 * mag):
+                    ctx.fail("ci-equals-normal-approximation", dict(case, matrix_index=k), observed=ci[k], expected=want)
+                    break
+    ctx.outcome(("alpha_sweep", part, len(hist)))
+    ctx.sample({"kind": "alpha_sweep", "part": part, "history_length": len(hist), "requeried": len(first)})
+    return None
+
+
 def run(item, ctx, tier, seed):
     from score_analysis import ConfusionMatrix, metrics
 
+    if item["kind"] == "alpha_sweep":
+        return _run_alpha_sweep(item, ctx, seed)
     b = bounds(tier)
     sc_name = item["scale"]
     dtype = _dtype(sc_name)
